@@ -1,25 +1,8 @@
 (* Extract/RunsReq.v — run modes for the request parser (C01, C03, C04, C05, C06).  Glue only. *)
 From FV Require Import Base.Bytes Gen.Generated Codec.Varint Codec.NV Codec.Header Codec.Bodies Codec.Vars
-  Cgi.Names Cgi.Lossy Parser.ReqModel Parser.ReqWire Extract.Runs.
+  Cgi.Names Cgi.Lossy Parser.ReqModel Parser.ReqWire Parser.EnvCanon Extract.Runs.
 
 Definition norm_impl (b : bytes) : bytes := upper (lossy b).
-
-(* canonical environment: last value wins, sorted by key *)
-Fixpoint bytes_ltb (a b : bytes) : bool :=
-  match a, b with
-  | [], [] => false
-  | [], _ => true
-  | _, [] => false
-  | x :: a', y :: b' => if x <? y then true else if y <? x then false else bytes_ltb a' b'
-  end.
-Fixpoint env_put (k v : bytes) (l : list (bytes * bytes)) : list (bytes * bytes) :=
-  match l with
-  | [] => [(k, v)]
-  | (k', v') :: t => if beq k k' then (k, v) :: t
-                     else if bytes_ltb k k' then (k, v) :: l else (k', v') :: env_put k v t
-  end.
-Definition canon_env (log : list (bytes * bytes)) : list (bytes * bytes) :=
-  fold_left (fun acc p => env_put (fst p) (snd p) acc) log [].
 
 Definition perr_code (e : perr) : list N :=
   match e with
